@@ -243,6 +243,36 @@ def recursive_file_cases():
     return out
 
 
+def symlink_runs(ctx):
+    """a referenced file reached through a directory that is a symbolic link: the file's own relative references (with `..`) resolve against the
+    directory the file really lives in, exactly as when the file is named by its real path - the CLI's output for the two spellings is identical, and
+    an unrelated file of the same name next to the link is not picked up"""
+    from vlib.clirun import Run, run_all, SYMLINK
+    types = {"description": "types", "$defs": {"Item": {"type": "object", "properties": {"code": {"$ref": "../base.json#/$defs/Code"}, "n": {"type": "integer"}}, "required": ["code"]}}}
+    base = {"description": "base", "$defs": {"Code": {"type": "string", "minLength": 3}}}
+    decoy = {"description": "decoy", "$defs": {"Code": {"type": "integer"}}}
+
+    def main(ref):
+        return {"$id": "http://x/main", "type": "object", "properties": {"item": {"$ref": ref + "#/$defs/Item"}, "items": {"type": "array", "items": {"$ref": ref + "#/$defs/Item"}}}}
+    common = {"shared/lib/types.json": json.dumps(types), "shared/base.json": json.dumps(base), "proj/vendor/base.json": json.dumps(decoy)}
+    runs = [("real-path", Run("sl0", dict(common, **{"proj/main.json": json.dumps(main("../shared/lib/types.json"))}), ["-p", "pkg", "proj/main.json"])),
+            ("directory-link", Run("sl1", dict(common, **{"proj/main.json": json.dumps(main("vendor/lib/types.json")), "proj/vendor/lib": SYMLINK + "../../shared/lib"}), ["-p", "pkg", "proj/main.json"])),
+            ("directory-link-cwd", Run("sl2", dict(common, **{"proj/main.json": json.dumps(main("vendor/lib/types.json")), "proj/vendor/lib": SYMLINK + "../../shared/lib"}), ["-p", "pkg", "main.json"], cwd="proj")),
+            ("file-link", Run("sl3", dict(common, **{"proj/main.json": json.dumps(main("vendor/types.json")), "proj/vendor/types.json": SYMLINK + "../../shared/lib/types.json"}), ["-p", "pkg", "proj/main.json"]))]
+    run_all(ctx, [r for _, r in runs])
+    ref = runs[0][1]
+    nv = 0
+    for name, r in runs:
+        ctx.count({"layout": name}, True, "multi-file/symbolic-links")
+        if r.status != 0 or (name != "real-path" and r.stdout != ref.stdout) or b"Code string" not in r.stdout:
+            if nv < 3:
+                ctx.violation("oracle", {"kind": "cli", "files": {k: (v if isinstance(v, str) else v.decode("utf-8", "replace")).replace("\x00", "<NUL>") for k, v in r.files.items()}, "argv": r.argv, "cwd": r.cwd,
+                                         "run": r.describe()},
+                              "reference through a symbolic link (%s): status %s, %s" % (name, r.status, "the output differs from the one for the real path" if r.status == 0 else r.stderr.decode("utf-8", "replace")[:200]))
+            nv += 1
+    return nv
+
+
 def has_anon_map_value(s):
     """an object schema with properties written inline as the value schema of a property-less object's additionalProperties becomes an anonymous
     struct without unmarshaler (recorded finding C04-anonymous-struct-map-value, D25): the inlined form of such a reference is outside the guard"""
@@ -365,6 +395,7 @@ def run(ctx):
             for d, cls in deep_docs(sc, depth):
                 docs.append({"doc": d, "cls": cls, "path": ("depth", depth)})
         rec.append(Case("c10x%d" % ri, sc, docs, fam="recursive"))
+    symlink_runs(ctx)
     recf = recursive_file_cases()
     allc = [c for p in pairs for c in p] + rec + recf
     run_cases(ctx, allc, "c10")
